@@ -39,6 +39,7 @@ class CallsMixin:
             cx.erased.add(callee)
             self.set_result(st, ins, [])
             return None
+        self.callsite_obligations(st, fr, ins, callee, args)
         return self.call_static(st, fr, b, i, ins, callee, binds, args, inline_ok)
 
     def set_result(self, st, ins, vals):
@@ -65,6 +66,10 @@ class CallsMixin:
         if callee == 'sort::Search':
             return self.ho_sort_search(st, fr, ins, callee, args)
         con = self.prog.cs.funcs.get(callee)
+        oc = cx.contract.opts.get('opaque-callees', '')
+        if con is not None and oc and any(x and x in callee for x in oc.split(',')):
+            cx.notes.append('contract of %s deliberately not used here (treated as opaque)' % callee)
+            return self.call_opaque(st, fr, ins, callee, args)
         if con is not None and not con.inline:
             sig = self.prog.sigs.get(callee) or {}
             params = [p['name'] for p in (sig.get('params') or [])]
@@ -139,16 +144,44 @@ class CallsMixin:
                 renv['err'] = vals[-1]
         ev2 = Ev(cx, st, renv, con.pkg, old, con.imports)
         for c in con.ensures:
+            if c.label.endswith('!'):
+                cx.trusted_clauses.add('%s.ensures[%s] (unproved postcondition used at a call site): %s' % (short, c.label, c.text))
             try:
                 st.assume(ev2.bool(c.expr))
             except SpecError as ex:
                 cx.stale('%s.call[%s].ensures[%s]' % (me, short, c.label), str(ex))
         return vals
 
+    def callsite_obligations(self, st, fr, ins, callee, args):
+        """`//@ call <pattern> requires <expr>` clauses of the function under contract: the
+        expression (over arg0.. and the caller's variables) must hold at every matching call"""
+        cx = self.cx
+        if fr is not cx.top or not cx.contract.calls:
+            return
+        for (pat, c) in cx.contract.calls:
+            if pat not in callee:
+                continue
+            env = {'arg%d' % k: a for k, a in enumerate(args)}
+            ev = cx.evaluator(st, fr, old=cx.entry_state.with_sink(st), extra=env)
+            cnt = cx.panic_ord.setdefault((fr.fnkey, 'callsite'), {})
+            pos = ins.get('pos') or {}
+            ck = (pat, c.label, pos.get('line'), pos.get('col'))
+            if ck not in cnt:
+                cnt[ck] = sum(1 for k in cnt if k[0] == pat and k[1] == c.label)
+            name = '%s.callsite[%s#%d].requires[%s]' % (cx.short, pat, cnt[ck], c.label)
+            try:
+                g = ev.bool(c.expr)
+            except SpecError as ex:
+                cx.stale(name, str(ex))
+                continue
+            cx.callsites_seen.add((pat, c.label))
+            cx.prove(st, g, name, 'call-site', ins.get('pos'), c.text, assume_after=True)
+
     def call_invoke(self, st, fr, b, i, ins, recv, method, iface, args):
         cx = self.cx
         types = self.types
         self.panic_check(st, fr, ins, recv.lv[('t',)] != 0, 'nil')
+        self.callsite_obligations(st, fr, ins, 'invoke ' + iface + '.' + method, [recv] + args)
         d = types.get(iface)
         iname = d.get('name') if d['k'] == 'named' else iface
         key = None
@@ -186,7 +219,10 @@ class CallsMixin:
     def closure_pred(self, st, fv):
         """(contract, param names, definition expr) of a pure closure/function used as a predicate:
         its contract must contain `ensures result == <expr>`"""
-        con = self.prog.cs.funcs.get(fv.fn) if fv.fn else None
+        fn = fv.fn
+        if fn and fn.endswith('$bound'):
+            fn = fn[:-len('$bound')]
+        con = self.prog.cs.funcs.get(fn) if fn else None
         if con is None:
             return None
         for c in con.ensures:
@@ -205,8 +241,10 @@ class CallsMixin:
             return self.call_opaque(st, fr, ins, callee, args)
         con, body = pr
         cx.assumed_used.add(callee.split('[')[0] + ' (built-in contract: exists over the predicate closure contract)')
-        fnd = self.prog.funcs.get(f.fn) or {}
-        sig = self.prog.sigs.get(f.fn) or {}
+        bound = bool(f.fn and f.fn.endswith('$bound'))
+        fname = f.fn[:-len('$bound')] if bound else f.fn
+        fnd = self.prog.funcs.get(fname) or {}
+        sig = self.prog.sigs.get(fname) or {}
         params = fnd.get('params') or sig.get('params') or []
         fvs = fnd.get('freevars') or []
         me = cx.short if fr is cx.top else fr.fnkey.split('::')[1]
@@ -216,7 +254,9 @@ class CallsMixin:
             env = {}
             pn = params[-1]['name'] if params else 'arg0'
             env[pn] = Val(params[-1]['type'], elem.lv) if params else elem
-            # bound method receivers / earlier params are not supported; free variables:
+            if bound and len(params) >= 2 and f.bindings:
+                env[params[0]['name']] = f.bindings[0]   # receiver of a bound method value
+            # free variables:
             for fvd, bv in zip(fvs, f.bindings or []):
                 if types.kind(bv.t) == 'ptr' and types.kind(fvd['type']) == 'ptr':
                     env[fvd['name']] = (lambda bv=bv: st.load(st.ptr_loc(bv), facts=False))
@@ -341,14 +381,18 @@ class CallsMixin:
             if a.lv is None or a.arr is not None:
                 # interior pointers handed to unknown code: the whole region is havocked anyway
                 pass
-        saved = [(loc, st.load(loc, facts=False)) for loc in st.locals if not self.escapes_to(loc, args)]
+        self.escape(st, args)
+        saved = [(loc, st.load(loc, facts=False)) for loc in st.locals]
+        stable = self.stable_snapshot(st, fr)
         st.bump_frontier('opaque')
         ev = Event(fresh_evid(), lambda key: True, st.frontier, None, 'opaque:' + callee)
         st.heap.havoc(ev, st.alloc0, opaque=True)
         for loc, v in saved:
             st.store(loc, v)
-            for key in [k for k in st.heap.opaque]:
-                pass
+        for (txt, l, v) in stable:
+            if l is not None:
+                st.store(l, v)
+                cx.assumed_used.add('frame-stable over opaque calls (assumed): ' + txt)
         st.callcount += 1
         vals = []
         for k, rt in enumerate(rtypes):
@@ -357,6 +401,30 @@ class CallsMixin:
             vals.append(v)
         self.set_result(st, ins, vals)
         return None
+
+    def stable_snapshot(self, st, fr):
+        """(text, loc, value) of the locations declared frame-stable, and of the cells of the
+        variables captured by a closure under contract (locals of the enclosing function)"""
+        cx = self.cx
+        stable = []
+        if fr is not cx.top:
+            return stable
+        if cx.contract.opts.get('stable'):
+            from .contracts import split_top
+            from . import exprparse
+            ev0 = cx.evaluator(st, fr)
+            for txt in split_top(cx.contract.opts['stable']):
+                try:
+                    l = ev0.loc(exprparse.parse(txt))
+                    stable.append((txt, l, st.load(l, facts=False)))
+                except SpecError:
+                    pass
+        for n in getattr(cx, 'freevar_names', []):
+            reg = st.regs.get(n)
+            if reg is not None and self.types.kind(reg.t) == 'ptr' and reg.lv is not None:
+                l = st.ptr_loc(reg)
+                stable.append(('captured variable ' + n, l, st.load(l, facts=False)))
+        return stable
 
     def escapes_to(self, loc, args):
         """a non-escaping local can still be passed by address to this very call"""
